@@ -16,12 +16,18 @@ Core only (no Mathlib).
 namespace FimVerif.Store
 open FimVerif FimVerif.Gen.StoreConsts
 
-/-- property values: strings (everything the API stores), `None` and 2-element lists
-    (`merge_nodes` writes `None` for an unknown policy word and `[mine, theirs]` for `combine`) -/
+/-- property values.  The API stores whatever Python object it is handed: strings (the normal case),
+    `None` (only through the bulk updates / initial properties — the single-value updates assert against
+    it — and through `merge_nodes` for an unknown policy word), ints, bools, 2-element lists (`merge_nodes`
+    writes `[mine, theirs]` for `combine`), and any other list / dict, which the stores never look into and
+    which is carried here as its canonical JSON text. -/
 inductive Val where
   | str (s : String)
   | none
   | pair (a b : Val)
+  | int (n : Int)
+  | bool (b : Bool)
+  | json (text : String)
   deriving DecidableEq, Repr, Inhabited
 
 abbrev Props := List (String × Val)
@@ -127,9 +133,13 @@ def relabel (base : Nat) : List Props → List SNode
   | [] => []
   | a :: r => ⟨base, a⟩ :: relabel (base + 1) r
 
+/-- python truthiness (`if not attrs.get(NODE_ID, None)`) -/
 def truthy : Option Val → Bool
   | some (.str s) => s != ""
   | some (.pair _ _) => true
+  | some (.int n) => n != 0
+  | some (.bool b) => b
+  | some (.json t) => t != "[]" && t != "{}"
   | _ => false
 
 /-! ## storage operations -/
@@ -216,7 +226,7 @@ def addLink (g a rel b : String) (props : Option Props) (s : Store) : R :=
       if AMap.has propClass p then (.error .type_, s)
       else (.ok .unit, addEdge ia ib ((propClass, .str rel) :: p) s)
 
-/-- `update_node_property` -/
+/-- `update_node_property` (after its `assert prop_val is not None`, see `assertVal`) -/
 def updateNodeProperty (g nid k : String) (v : Val) (s : Store) : R :=
   if k = nxLabel then (.error .query, s)
   else withNode s g nid fun i => (.ok .unit, updNode i (AMap.set k v) s)
@@ -378,6 +388,11 @@ def mergeNodes (g nid g2 : String) (pol : Option (List (String × Policy))) (s :
           | .ok np => (.ok .unit, updNode u (fun _ => np) (contract u v s))
       | _, _ => (.error .key, s)
 
+/-- `assert prop_val is not None` at the head of `update_node_property`, `update_nodes_property` and
+    `update_link_property` (the bulk updates have no such assertion: a `None` inside the dictionary is
+    stored as a value) -/
+def assertVal (v : Val) (s : Store) (k : R) : R := if v = .none then (.error .assertion, s) else k
+
 /-! ## operations as data, histories -/
 
 inductive Op where
@@ -411,11 +426,11 @@ def step : Op → Store → R
   | .addNode g nid label props => addNode g nid label props
   | .deleteNode g nid => deleteNode g nid
   | .addLink g a rel b props => addLink g a rel b props
-  | .updateNodeProperty g nid k v => updateNodeProperty g nid k v
+  | .updateNodeProperty g nid k v => fun s => assertVal v s (updateNodeProperty g nid k v s)
   | .unsetNodeProperty g nid k => unsetNodeProperty g nid k
-  | .updateNodesProperty g k v => updateNodesProperty g k v
+  | .updateNodesProperty g k v => fun s => assertVal v s (updateNodesProperty g k v s)
   | .updateNodeProperties g nid props => updateNodeProperties g nid props
-  | .updateLinkProperty g a b kind k v => updateLinkProperty g a b kind k v
+  | .updateLinkProperty g a b kind k v => fun s => assertVal v s (updateLinkProperty g a b kind k v s)
   | .unsetLinkProperty g a b kind k => unsetLinkProperty g a b kind k
   | .updateLinkProperties g a b kind props => updateLinkProperties g a b kind props
   | .deleteGraph g => delGraph g
